@@ -884,7 +884,12 @@ def ex_delete(st, s):
         if isinstance(t, ast.Subscript):
             obj = ev(st, t.value)
             if isinstance(t.slice, ast.Slice):
-                raise Undecided('del slice')
+                if t.slice.step is not None or obj.t.kind != 'list':
+                    raise Undecided('del slice with a step / on a non-list')
+                lo = ev(st, t.slice.lower) if t.slice.lower is not None else None
+                hi = ev(st, t.slice.upper) if t.slice.upper is not None else None
+                B.del_slice(st, obj, lo, hi)
+                continue
             B.del_item(st, obj, ev(st, t.slice))
         elif isinstance(t, ast.Name):
             st.locals.pop(t.id, None)
